@@ -4,7 +4,8 @@
      Wrap(cs, t)    ESC [ p1;..;pn m  t  ESC [ 0 m        (t itself when there are no codes or t is empty)
      Strip(u)       the ANSI_RE automaton  ESC ( [@-Z\-_] | '[' [0-?]* [ -/]* [@-~] )  removed (descape)
      ParseCodes(ps) the attribute reader of Style.from_raw
-     Enabled(..)    the colour gate: explicit override > NO_COLOR > FORCE_COLOR > isatty
+     Enabled(..)    the colour gate: explicit override > NO_COLOR > FORCE_COLOR > isatty of the policy's OWN stream
+                    (Color() looks at stdout, Color.stderr() - the policy of all error rendering - at stderr)
    Laws (checked by TLC for every style of the domain and every ESC-free text up to MaxLen):
      StripLaw   Strip(Wrap(Codes(st), t)) = t          LenLaw   Len(Strip(..)) = Len(t)
      ParseLaw   ParseCodes(Codes(st)) = st              OffLaw   colour disabled => output = t (no ESC at all)
@@ -79,29 +80,30 @@ Plain == [mods |-> {}, fg |-> <<"none">>, bg |-> <<"none">>]
 ParseCodes(ps) == Parse(ps, 1, Plain)
 
 \* ---- the colour gate
-Enabled(force, nocolor, forcecolor, isatty) ==
+Enabled(force, nocolor, forcecolor, stream, ttyout, ttyerr) ==
   IF force # "unset" THEN force = "on"
   ELSE IF nocolor THEN FALSE
   ELSE IF forcecolor THEN TRUE
-  ELSE isatty
+  ELSE IF stream = "stderr" THEN ttyerr ELSE ttyout
 
 Texts == UNION {[1..n -> TextAlphabet] : n \in 1..MaxLen}
 Styles == {[mods |-> m, fg |-> f, bg |-> b] : m \in ModSets, f \in Colors, b \in Colors}
 
 VARIABLES st, t, gate, done
 Init == st \in Styles /\ t \in Texts /\ done = FALSE
-        /\ gate \in [force : {"unset", "on", "off"}, nocolor : BOOLEAN, forcecolor : BOOLEAN, isatty : BOOLEAN]
+        /\ gate \in [force : {"unset", "on", "off"}, nocolor : BOOLEAN, forcecolor : BOOLEAN, stream : {"stdout", "stderr"},
+                     ttyout : BOOLEAN, ttyerr : BOOLEAN]
         /\ (gate.force = "on" \/ st = CHOOSE s \in Styles : s.mods = {1} /\ s.fg = <<"none">> /\ s.bg = <<"none">>)   \* the gate is explored with one style
         /\ (gate.force # "on" => Len(t) = 1)
-        /\ (gate.force = "on" => ~gate.nocolor /\ ~gate.forcecolor /\ gate.isatty)
-On == Enabled(gate.force, gate.nocolor, gate.forcecolor, gate.isatty)
+        /\ (gate.force = "on" => ~gate.nocolor /\ ~gate.forcecolor /\ gate.ttyout /\ gate.ttyerr /\ gate.stream = "stdout")
+On == Enabled(gate.force, gate.nocolor, gate.forcecolor, gate.stream, gate.ttyout, gate.ttyerr)
 Out == IF On THEN Wrap(Codes(st), t) ELSE t
 
 Bit(b) == IF b THEN "1" ELSE "0"
 RECURSIVE Cat(_)
 Cat(u) == IF u = <<>> THEN "" ELSE Head(u) \o Cat(Tail(u))
 Next == /\ ~done /\ done' = TRUE /\ UNCHANGED <<st, t, gate>>
-        /\ PrintT("RES " \o Cat(t) \o "_" \o Cat(JoinParams(Codes(st))) \o "_" \o gate.force \o Bit(gate.nocolor) \o Bit(gate.forcecolor) \o Bit(gate.isatty) \o " " \o
+        /\ PrintT("RES " \o Cat(t) \o "_" \o Cat(JoinParams(Codes(st))) \o "_" \o gate.force \o Bit(gate.nocolor) \o Bit(gate.forcecolor) \o gate.stream \o Bit(gate.ttyout) \o Bit(gate.ttyerr) \o " " \o
                   ToJson([mods |-> st.mods, fg |-> st.fg, bg |-> st.bg, t |-> t, gate |-> gate, on |-> On, codes |-> Codes(st), out |-> Out]))
 
 StripLaw == Strip(Out) = t
